@@ -238,6 +238,7 @@ func GenDefault(t *rapid.T) DefaultCase {
 		c.SameOp = rapid.Bool().Draw(t, "earlier-request-with-the-same-operation-value")
 	}
 	c.Debug = rapid.IntRange(0, 3).Draw(t, "debug-transport") == 0
+	c.Traced = rapid.IntRange(0, 3).Draw(t, "traced-transport") == 0
 	return c
 }
 
@@ -380,6 +381,9 @@ func ClassifyBearer(c BearerCase) (bool, []string) {
 // Authorization header is pre-set), or the applied default contains a transformed byte.
 func ClassifyDefault(c DefaultCase) (bool, []string) {
 	l := map[string]bool{"default=" + c.Default.Kind: true}
+	if c.Traced {
+		l["submitted through the tracing wrapper of the transport"] = true
+	}
 	if c.Rotated != nil && c.SameOp {
 		l["the same operation value was submitted before under another default credential"] = true
 	}
